@@ -284,4 +284,15 @@ theorem prepare_auto (ht : TextsOk) (hc : ConstsOk) (e : Env) (cfg : Cfg) (s : S
       rw [← h3, ← h2]
     · cases heq
 
+theorem blen_le_four_length (s : Str) : blen s ≤ 4 * s.length := by
+  induction s with
+  | nil => simp [blen]
+  | cons c cs ih => have := Char.utf8Size_le_four c; simp [blen]; omega
+
+theorem truncate_length (allowed : Nat) (cfg : Cfg) (s : Str) : (truncate allowed cfg s).length ≤ allowed * cfg.maximumMores := by
+  unfold truncate
+  split
+  · simp; omega
+  · omega
+
 end C12
